@@ -123,45 +123,7 @@ func checkC06(c *Check) {
 	c.Rule("L1", "check-runner locks: every mutex the package's functions take is released on every path to a return, and nothing unlocks a mutex it does not hold (immediate or deferred; function literals separately)", 3)
 	lockBalance(c, "L1", []string{pipelineRel}, nil)
 
-	// ---- R1
-	c.Rule("R1", "Body and BodyNonAtomic of the pipeline run the same ordered stage sequence", 1)
-	rb := c.need("R1", pipelineRel, "msgpipelineDelivery", "Body")
-	rn := c.need("R1", pipelineRel, "msgpipelineDelivery", "BodyNonAtomic")
-	if rb != nil && rn != nil {
-		sb, sn := bodyStages(rb), bodyStages(rn)
-		missing := []string{}
-		have := map[string]bool{}
-		for _, s := range sn {
-			have[s] = true
-		}
-		for _, s := range sb {
-			if !have[s] {
-				missing = append(missing, s)
-			}
-		}
-		extra := []string{}
-		haveB := map[string]bool{}
-		for _, s := range sb {
-			haveB[s] = true
-		}
-		for _, s := range sn {
-			if !haveB[s] {
-				extra = append(extra, s)
-			}
-		}
-		msg := ""
-		if len(missing) > 0 {
-			msg = "the per-recipient (LMTP) body path lacks stages the SMTP path has: " + strings.Join(missing, ", ") + " – e.g. without applyResults the quarantine flag and the DMARC action are never applied over LMTP"
-		} else if len(extra) > 0 {
-			msg = "the SMTP body path lacks stages the LMTP path has: " + strings.Join(extra, ", ")
-		} else if strings.Join(sb, ">") != strings.Join(sn, ">") {
-			msg = "the two body paths run their stages in different orders: " + strings.Join(sb, ">") + " vs " + strings.Join(sn, ">")
-		}
-		if len(sb) < 7 {
-			msg = "undecided: fewer stages than expected in Body: " + strings.Join(sb, ">")
-		}
-		c.Hold("R1", "msgpipelineDelivery.Body~BodyNonAtomic", rn.FI.Decl.Pos(), msg == "", msg)
-	}
+	c06StageOrder(c)
 
 	// ---- R2
 	c.Rule("R2", "no verdict is dropped: after an error of checkConnSender / checkRcpt / checkBody / applyResults the function neither reports success nor hands anything to a target", 8)
@@ -514,7 +476,7 @@ func checkC06(c *Check) {
 	}
 	// ---- R1b: the set of recipient blocks whose body checks must run only grows
 	c.Rule("R1b", "the registry of recipient blocks used by a message (whose keys drive the recipient-scoped body checks) is never shrunk during the transaction", 1)
-	if rb != nil {
+	if rb := c.In(pipelineRel, "msgpipelineDelivery", "Body"); rb != nil {
 		// the map ranged for blk.checks in Body
 		var reg *types.Var
 		findReg := func(inf *types.Info, body ast.Node) {
@@ -566,6 +528,30 @@ func checkC06(c *Check) {
 	c06Replay(c)
 	c06StageMemory(c)
 	c06MetadataIdentity(c)
+
+	// ---- R6: the checks a block runs are the checks its configuration names. A block that keeps the slice of a named
+	// check group (`check &shared`) instead of copying its elements shares storage with every other block naming the
+	// group: its own further `check { … }` directive is overwritten by – or overwrites – another block's. C04.R5b.
+	c.Rule("R6", "configuration: a named check / modifier group is merged into a block element by element – a block never runs another block's check in place of its own (C04.R5b)", 4)
+	sub4 := newCheck("C04", c.P, c.Tier)
+	c04GroupsCopied(sub4)
+	for _, o := range sub4.obs {
+		if o.Rule == "R5b" {
+			c.Hold("R6", o.Key, o.posRaw, o.OK, o.Msg)
+		}
+	}
+	// ---- R5b: "the remote target refuses it" – on the atomic and on the per-recipient body path. C05.R8.
+	c.Rule("R5b", "the remote target refuses a quarantined message on every path to a sending call, in AddRcpt and in BodyNonAtomic – the entry point of the LMTP path and of the queue (C05.R8)", 2)
+	sub5 := newCheck("C05", c.P, c.Tier)
+	c05Quarantine(sub5)
+	for _, o := range sub5.obs {
+		if o.Rule == "R8" {
+			c.Hold("R5b", o.Key, o.posRaw, o.OK, o.Msg)
+		}
+	}
+	for f := range sub5.funcs {
+		c.SawFunc(f)
+	}
 }
 
 // R4d: what the replay of R4 reads. checkStates replays the connection / sender stage for a lazily created state only
@@ -765,4 +751,49 @@ func c06Replay(c *Check) {
 		}
 		c.Hold("R4", "checkStates:replay-before-publish", r.FI.Decl.Pos(), msg == "", msg)
 	}
+}
+
+// c06StageOrder: R1 (also evaluated by C07: the DMARC verdict is computed from the results of ALL body checks on
+// both paths)
+func c06StageOrder(c *Check) {
+	// ---- R1
+	c.Rule("R1", "Body and BodyNonAtomic of the pipeline run the same ordered stage sequence", 1)
+	rb := c.need("R1", pipelineRel, "msgpipelineDelivery", "Body")
+	rn := c.need("R1", pipelineRel, "msgpipelineDelivery", "BodyNonAtomic")
+	if rb != nil && rn != nil {
+		sb, sn := bodyStages(rb), bodyStages(rn)
+		missing := []string{}
+		have := map[string]bool{}
+		for _, s := range sn {
+			have[s] = true
+		}
+		for _, s := range sb {
+			if !have[s] {
+				missing = append(missing, s)
+			}
+		}
+		extra := []string{}
+		haveB := map[string]bool{}
+		for _, s := range sb {
+			haveB[s] = true
+		}
+		for _, s := range sn {
+			if !haveB[s] {
+				extra = append(extra, s)
+			}
+		}
+		msg := ""
+		if len(missing) > 0 {
+			msg = "the per-recipient (LMTP) body path lacks stages the SMTP path has: " + strings.Join(missing, ", ") + " – e.g. without applyResults the quarantine flag and the DMARC action are never applied over LMTP"
+		} else if len(extra) > 0 {
+			msg = "the SMTP body path lacks stages the LMTP path has: " + strings.Join(extra, ", ")
+		} else if strings.Join(sb, ">") != strings.Join(sn, ">") {
+			msg = "the two body paths run their stages in different orders: " + strings.Join(sb, ">") + " vs " + strings.Join(sn, ">")
+		}
+		if len(sb) < 7 {
+			msg = "undecided: fewer stages than expected in Body: " + strings.Join(sb, ">")
+		}
+		c.Hold("R1", "msgpipelineDelivery.Body~BodyNonAtomic", rn.FI.Decl.Pos(), msg == "", msg)
+	}
+
 }
